@@ -86,3 +86,58 @@ Theorem src64_tie_day_difference y1 m1 d1 y2 m2 d2 r :
 Proof. exact (s64_day_difference_tie y1 m1 d1 y2 m2 d2 r). Qed.
 Print Assumptions src64_tie_day_difference.
 
+
+From CCTZ Require Import Source64 Source64Proofs Source64MoreProofs.
+(* MORE OF civil_time_detail.h AS CLANG READS IT NOW (Source64.v, regenerated every run; templates read through their
+   instantiations in a probe translation unit, overloads resolved by clang): the civil_time constructors, conversions,
+   operators and next/prev_weekday.  Source64MoreProofs.v ties each to the hand-written model and composes with the
+   refinement theorems: the CURRENT source meets the calendar specification, with no intermediate overflow. *)
+Theorem src64m_plus_meets_spec : forall tag f n, (tag <= 5)%nat ->
+  valid_fields f = true -> align_spec tag f = f -> int64 (fy f) -> int64 n ->
+  int64 (fy (of_ord_spec tag (ord_spec tag f + n))) ->
+  s64m_plus tag f n = OK (of_ord_spec tag (ord_spec tag f + n)) /\
+  s64m_plus_rev tag n f = OK (of_ord_spec tag (ord_spec tag f + n)).
+Proof. exact Source64MoreProofs.src64m_plus_meets_spec. Qed.
+Print Assumptions src64m_plus_meets_spec.
+Theorem src64m_minus_meets_spec : forall tag f n, (tag <= 5)%nat ->
+  valid_fields f = true -> align_spec tag f = f -> int64 (fy f) -> int64 n ->
+  int64 (fy (of_ord_spec tag (ord_spec tag f - n))) ->
+  s64m_minus tag f n = OK (of_ord_spec tag (ord_spec tag f - n)).
+Proof. exact Source64MoreProofs.src64m_minus_meets_spec. Qed.
+Print Assumptions src64m_minus_meets_spec.
+Theorem src64m_diff_meets_spec : forall tag f1 f2, (tag <= 5)%nat ->
+  valid_fields f1 = true -> valid_fields f2 = true -> align_spec tag f1 = f1 -> align_spec tag f2 = f2 ->
+  int64 (fy f1) -> int64 (fy f2) ->
+  int64 (ord_spec tag f1 - ord_spec tag f2) ->
+  s64m_diff tag f1 f2 = OK (ord_spec tag f1 - ord_spec tag f2).
+Proof. exact Source64MoreProofs.src64m_diff_meets_spec. Qed.
+Print Assumptions src64m_diff_meets_spec.
+Theorem src64m_assign_meets_spec : forall tag f n, (tag <= 5)%nat ->
+  valid_fields f = true -> align_spec tag f = f -> int64 (fy f) -> int64 n ->
+  (int64 (fy (of_ord_spec tag (ord_spec tag f + n))) ->
+   s64m_add_assign tag f n = OK (of_ord_spec tag (ord_spec tag f + n))) /\
+  (int64 (fy (of_ord_spec tag (ord_spec tag f - n))) ->
+   s64m_sub_assign tag f n = OK (of_ord_spec tag (ord_spec tag f - n))).
+Proof. exact Source64MoreProofs.src64m_assign_meets_spec. Qed.
+Print Assumptions src64m_assign_meets_spec.
+Theorem src64m_inc_dec_meets_spec : forall tag f, (tag <= 5)%nat ->
+  valid_fields f = true -> align_spec tag f = f -> int64 (fy f) ->
+  (int64 (fy (of_ord_spec tag (ord_spec tag f + 1))) ->
+   s64m_pre_inc tag f = OK (of_ord_spec tag (ord_spec tag f + 1)) /\
+   s64m_post_inc tag f = OK (f, of_ord_spec tag (ord_spec tag f + 1))) /\
+  (int64 (fy (of_ord_spec tag (ord_spec tag f - 1))) ->
+   s64m_pre_dec tag f = OK (of_ord_spec tag (ord_spec tag f - 1)) /\
+   s64m_post_dec tag f = OK (f, of_ord_spec tag (ord_spec tag f - 1))).
+Proof. exact Source64MoreProofs.src64m_inc_dec_meets_spec. Qed.
+Print Assumptions src64m_inc_dec_meets_spec.
+Theorem src64m_order_agrees : forall a b, valid_fields a = true -> valid_fields b = true ->
+  s64_lt a b = OK (sec_of a <? sec_of b) /\ s64_le a b = OK (sec_of a <=? sec_of b) /\
+  s64_gt a b = OK (sec_of b <? sec_of a) /\ s64_ge a b = OK (sec_of b <=? sec_of a) /\
+  s64_eq a b = OK (sec_of a =? sec_of b) /\ s64_ne a b = OK (negb (sec_of a =? sec_of b)).
+Proof. exact Source64MoreProofs.src64m_order_agrees. Qed.
+Print Assumptions src64m_order_agrees.
+Theorem src64m_lt_iff_difference_negative : forall tag a b, (tag <= 5)%nat ->
+  valid_fields a = true -> valid_fields b = true -> align_spec tag a = a -> align_spec tag b = b ->
+  (s64_lt a b = OK true <-> ord_spec tag a - ord_spec tag b < 0).
+Proof. exact Source64MoreProofs.src64m_lt_iff_difference_negative. Qed.
+Print Assumptions src64m_lt_iff_difference_negative.
